@@ -599,7 +599,7 @@ class PathExec:
         s.eng, s.prog, s.prefix = eng, eng.prog, prefix
         s.decisions, s.alternatives, s.pc = [], [], []
         s.steps = 0; s.nfresh = 0
-        s.depth = 0
+        s.depth = 0; s.max_depth = 0
         s.log = []
         s.cur_fn = None
     # ---- symbolic helpers
@@ -1022,6 +1022,7 @@ class PathExec:
         fr = Frame(fn); s.eng.fn_used.add(fn.name)
         for p, a in zip(fn.params, args): fr.locals[p] = Cell(a)
         s.depth += 1
+        if s.depth > s.max_depth: s.max_depth = s.depth
         if s.depth > 400: raise Unsupported('recursion depth')
         bb = 'bb0'
         try:
